@@ -409,10 +409,13 @@ def main(tier: str) -> int:
         rejected = (not r["ok"]) and r["exc"] in ("MinecraftVersionTooLow", "MinecraftVersionTooHigh")
         feature = m["probe"].get("feature")
         if feature and (m["type"] == "feature" or not r["ok"]):
-            if not r["ok"] and not rejected:
-                probe_failed(m, job, r, "compiles, or is rejected with a version diagnostic")
+            # 0 = compiled, 1 = version diagnostic, 2 = another diagnostic of JMC's own (e.g. the strategy in force cannot do it)
+            outcome = 0 if r["ok"] else 1 if rejected else 2 if (r.get("jmc") and r["exc"] == "JMCSyntaxException") else None
+            if outcome is None:
+                probe_failed(m, job, r, "compiles, or is rejected with a diagnostic")
                 continue
-            fcases.append(f"mkF {feature} {cz(m['pf10'])} {coq_bool(m['pf10'] in table10)} {coq_bool(rejected)}")
+            rejected = outcome != 0
+            fcases.append(f"mkF {feature} {cz(m['pf10'])} {coq_bool(m['pf10'] in table10)} {outcome}%nat")
             fmeta.append(m)
             if rejected:
                 n_reject_ok += 1
@@ -438,7 +441,7 @@ def main(tier: str) -> int:
 
     files = []
     per = 300
-    for name, cases, checker in (("p", pcases, "pmismatches R sites"), ("f", fcases, "fmismatches gates" if t else "fmismatches_nogates"), ("r", rcases, "rmismatches")):
+    for name, cases, checker in (("p", pcases, "pmismatches R sites"), ("f", fcases, "fmismatches gates sgates" if t else "fmismatches_nogates"), ("r", rcases, "rmismatches")):
         for fi, start in enumerate(range(0, len(cases), per)):
             body = header + "Definition cases := [\n" + ";\n".join(cases[start:start + per]) + "\n].\n" + f"Eval vm_compute in {checker} cases.\n"
             files.append((name, start, f"cases_{name}_{fi}.v", body))
@@ -496,8 +499,8 @@ def main(tier: str) -> int:
         rej = not m["res"]["ok"]
         ck.violation(dict(kind="feature-gate", probe=m["probe"]["name"], feature=m["probe"]["feature"], pack_format=m["fmt"], src=m["job"]["src"],
                           header=m["job"].get("header"), jmc_txt=m["job"]["cert"],
-                          expected=("accepted (the gates of the source do not raise for this format)" if rej else
-                                    "rejected with MinecraftVersionTooLow/TooHigh: this pack format cannot express the feature"),
+                          expected=("accepted (no gate of the source rejects it for this format)" if rej else
+                                    "rejected with a diagnostic: this pack format / switch strategy cannot express the feature"),
                           actual=("rejected: " + m["res"]["msg"][:200]) if rej else "compiled",
                           expect_reject=not rej))
     for i in bad["r"][:3]:
@@ -567,8 +570,8 @@ def replay(path: str) -> int:
     r = run_py(RUNNER, [job])[0]
     print("program     :", rp["src"]); print("pack_format :", rp["pack_format"]); print("expected    :", rp["expected"])
     if rp["kind"] == "feature-gate":
-        rejected = (not r["ok"]) and r["exc"] in ("MinecraftVersionTooLow", "MinecraftVersionTooHigh")
-        print("actual      :", "rejected with " + r["exc"] if rejected else ("compiled" if r["ok"] else r["exc"]))
+        rejected = not r["ok"]
+        print("actual      :", "rejected with " + r["exc"] if rejected else "compiled")
         return 0 if rejected == rp["expect_reject"] else 1
     if not r["ok"]:
         print("actual      :", r["exc"], r["msg"][:300])
